@@ -8,8 +8,8 @@ CONSTANTS
   Correlated = FALSE
   AnsOpts = {}
   CmpReturns = {}
-  LeafAns = {"a0", "a12", "a1", "a1f"}
-  LeafCmp = {"T", "P", "F"}
+  LeafAns = {"a0", "a1", "a1f"}
+  LeafCmp = {"T", "P"}
   TableGrades = {"c0", "c12", "c1"}
   ListAns = {}
   MaxItems = 1
